@@ -1004,5 +1004,38 @@ func main() {
 	s += footer("Swar")
 	write(out, "Swar", s)
 
+	// ---- protocol skeletons
+	s = header("Skeleton")
+	type sk struct {
+		p     *pkg
+		funcs []string
+	}
+	lp := loadPkg("internal/lossy")
+	xs := loadPkg("internal/xsync")
+	groups := []sk{
+		{ot, []string{"cache.afterWriteTask", "cache.scheduleAfterWrite", "cache.scheduleDrainBuffers", "cache.drainBuffers", "cache.performCleanUp",
+			"cache.rescheduleCleanUpIfIncomplete", "cache.maintenance", "cache.drainWriteBuffer", "cache.shouldDrainBuffers", "cache.afterRead", "cache.getNode",
+			"cache.SetMaximum", "cache.GetMaximum", "cache.WeightedSize", "cache.InvalidateAll", "cache.CleanUp", "cache.evictionOrder",
+			"group.startCall", "group.deleteCall", "group.delete", "group.doCall", "group.doBulkCall", "cache.afterDeleteCall"}},
+		{qp, []string{"MPSC.TryPush", "MPSC.pushSlowPath", "MPSC.resize", "MPSC.TryPop", "MPSC.getNextBuffer", "MPSC.newBufferTryPush", "MPSC.newBufferAndOffset"}},
+		{lp, []string{"ring.add", "ring.drainTo", "Striped.Add", "Striped.expandOrRetry", "Striped.DrainTo"}},
+		{xs, []string{"Adder.Add", "Adder.Value"}},
+		{hp, []string{"Map.Get", "Map.Compute", "Map.resize", "Map.waitForResize", "Map.Range"}},
+	}
+	for _, g := range groups {
+		listed := map[string]bool{}
+		for _, f := range g.funcs {
+			listed[f[strings.Index(f, ".")+1:]] = true
+		}
+		for _, extra := range []string{"evictNode", "runTask", "TryPush", "TryPop", "DrainTo", "drainReadBuffer", "expireNodes", "evictNodes", "climb", "deleteNode", "Invalidate"} {
+			listed[extra] = true
+		}
+		for _, f := range g.funcs {
+			s += fmt.Sprintf("/-- %s -/\ndef %s : List (Nat × String) :=\n  %s\n\n", f, sanitize(strings.Replace(f, ".", "_", 1)), skeletonOf(g.p, f, listed))
+		}
+	}
+	s += footer("Skeleton")
+	write(out, "Skeleton", s)
+
 	fmt.Println("verifgen: ok")
 }
